@@ -51,6 +51,7 @@ extern "C" {
     fn mk_bdd_manager_default_order(num_vars: u64) -> Mgr;
     fn robdd_builder_compile_cnf(builder: Mgr, cnf: *mut Cnf) -> *mut BP;
     fn robdd_model_count(builder: Mgr, bdd: *mut BP) -> u64;
+    fn free_bdd_manager(mgr: Mgr);
     fn bdd_new_label(builder: Mgr) -> u64;
     fn bdd_var(builder: Mgr, label: u64, polarity: bool) -> *mut BP;
     fn bdd_new_var(builder: Mgr, polarity: bool) -> *mut BP;
@@ -131,6 +132,9 @@ const F_PRINT: u8 = 20;
 const F_SET_WEIGHT: u8 = 21;
 const F_SCRATCH: u8 = 22;
 const F_PIPELINE: u8 = 23;
+/// the manager is freed through the C interface and a new one of the same shape is created (the native twin too);
+/// every handle dies with it, the weight tables live on
+const F_RESTART: u8 = 24;
 const NK: usize = 24;
 const KN: [&str; NK] = [
     "clause", "bdd_var", "bdd_new_var", "bdd_new_label+bdd_var", "bdd_true/false", "bdd_negate", "bdd_and", "bdd_or", "bdd_ite", "bdd_compose",
@@ -243,18 +247,21 @@ fn run(plan: &Plan, ctx: &mut Ctx) -> R {
     // beyond 7 variables there is no truth-table model: the native twin alone is the reference
     let wide = n0 > 6;
     // ---- manager through the C interface, twin natively
-    let (mgr, native): (Mgr, &'static RobddBuilder<'static, AllIteTable<BP>>) = if plan.get("custom_order") != 0 {
-        let perm = perm_from_index(n0, plan.get("order_idx") as u64);
-        let labels: Vec<VarLabel> = perm.iter().map(|v| VarLabel::new(*v as u64)).collect();
-        let m = unsafe { robdd_builder_all_table(var_order_new(labels.as_ptr(), labels.len())) };
-        (m, Box::leak(Box::new(RobddBuilder::new(VarOrder::new(&labels)))))
-    } else if plan.get("custom_order") == 0 && plan.get_or("via_linear", 0) != 0 {
-        let m = unsafe { robdd_builder_all_table(var_order_linear(n0) as *mut VarOrder) };
-        (m, Box::leak(Box::new(RobddBuilder::new(VarOrder::linear_order(n0)))))
-    } else {
-        let m = unsafe { mk_bdd_manager_default_order(n0 as u64) };
-        (m, Box::leak(Box::new(RobddBuilder::new(VarOrder::linear_order(n0)))))
+    let make = || -> (Mgr, &'static RobddBuilder<'static, AllIteTable<BP>>) {
+        if plan.get("custom_order") != 0 {
+            let perm = perm_from_index(n0, plan.get("order_idx") as u64);
+            let labels: Vec<VarLabel> = perm.iter().map(|v| VarLabel::new(*v as u64)).collect();
+            let m = unsafe { robdd_builder_all_table(var_order_new(labels.as_ptr(), labels.len())) };
+            (m, Box::leak(Box::new(RobddBuilder::new(VarOrder::new(&labels)))))
+        } else if plan.get("custom_order") == 0 && plan.get_or("via_linear", 0) != 0 {
+            let m = unsafe { robdd_builder_all_table(var_order_linear(n0) as *mut VarOrder) };
+            (m, Box::leak(Box::new(RobddBuilder::new(VarOrder::linear_order(n0)))))
+        } else {
+            let m = unsafe { mk_bdd_manager_default_order(n0 as u64) };
+            (m, Box::leak(Box::new(RobddBuilder::new(VarOrder::linear_order(n0)))))
+        }
     };
+    let (mut mgr, mut native) = make();
     let mut wr = Rng::new(plan.get("wseed") as u64);
     let mut wt = unsafe {
         WeightTables {
@@ -291,6 +298,23 @@ fn run(plan: &Plan, ctx: &mut Ctx) -> R {
             continue;
         }
         ctx.ops += 1;
+        if op.k == F_RESTART {
+            // the manager's lifetime ends: everything it allocated is released (and, in runs whose allocator re-uses
+            // addresses, handed to whoever asks next); a new manager of the same shape takes over. The weight tables
+            // are not touched: they are objects of their own and outlive any manager.
+            unsafe { free_bdd_manager(mgr) };
+            let (m2, n2) = make();
+            mgr = m2;
+            native = n2;
+            cp.clear();
+            np.clear();
+            model.clear();
+            nvars = n0;
+            ctx.ev(300 + F_RESTART as u64, &[i as u64]);
+            ctx.note(|| format!("[{i}] free_bdd_manager; new manager {:#x}", mgr as usize));
+            ctx.count("manager-lifetimes-ended", 1);
+            continue;
+        }
         let n = cp.len();
         let mut kind = op.k;
         if n == 0 && !matches!(kind, F_VAR | F_NEWVAR | F_NEWLABEL | F_CONST | F_COMPILE | F_SET_WEIGHT) {
@@ -669,7 +693,30 @@ impl World for FfiWorld {
                 }
             }
         }
-        let len = if marathon { 0 } else { 5 + o.below(if thorough { 120 } else { 60 }) };
+        // one small-manager run in 60 is a "lifetimes" run: the allocator re-uses freed addresses, and the history is cut
+        // into two to four segments by free_bdd_manager + a new manager of the same shape. Every segment issues the same
+        // *kinds* of calls in the same order (so that the new manager's nodes land where the dead one's were) with
+        // freshly drawn variables, polarities and operands (so that they are other functions), and no weight is written
+        // after the first segment: whatever the wrapper remembers by address has to notice that the object died.
+        let lifetimes = !marathon && n0 <= 6 && c.below(60) == 0;
+        if lifetimes {
+            cfg.insert("reuse".into(), 1);
+            cfg.insert("lifetimes".into(), 1);
+            // (no forgetting / early-growth faults here: they would make the segments' allocation patterns differ)
+            rates = [0u16; NUM_SITES];
+            let kinds: Vec<u8> = (0..(8 + o.below(30)))
+                .map(|j| if j < 2 { F_VAR } else { *o.pick(&[F_VAR, F_VAR, F_NEG, F_AND, F_AND, F_OR, F_OR, F_ITE, F_WMC_REAL, F_WMC_REAL, F_WMC_COMPLEX, F_MODEL_COUNT, F_COUNT, F_EQ, F_CHILDREN, F_JSON]) })
+                .collect();
+            for seg in 0..(2 + o.below(3)) {
+                if seg > 0 {
+                    ops.push(Op { c: 0, k: F_RESTART, a: [0; 4] });
+                }
+                for k in kinds.iter() {
+                    ops.push(Op { c: 0, k: *k, a: [gen_operand(&mut o), gen_operand(&mut o), gen_operand(&mut o), o.below(2) as i64] });
+                }
+            }
+        }
+        let len = if marathon || lifetimes { 0 } else { 5 + o.below(if thorough { 120 } else { 60 }) };
         for _ in 0..len {
             let k = o.weighted(&w) as u8;
             ops.push(Op { c: 0, k, a: [gen_operand(&mut o), gen_operand(&mut o), gen_operand(&mut o), o.below(2) as i64] });
@@ -704,7 +751,7 @@ impl World for FfiWorld {
         if op.k == K_CLAUSE {
             format!("clause (cnf#{}) {:?}", op.c, clause_of(op))
         } else {
-            format!("{} {:?}", KN.get(op.k as usize).unwrap_or(&"?"), op.a)
+            format!("{} {:?}", if op.k == F_RESTART { &"free_bdd_manager + new manager" } else { KN.get(op.k as usize).unwrap_or(&"?") }, op.a)
         }
     }
 }
